@@ -1,6 +1,6 @@
 """C17 — block I/O layer: coherent, durable on flush, failed writes reported (G1, rapidcheck+ASan); thread-safe bitmap loading (G2, TSan)."""
-import os
-from vlib import rc, rcheck, run as vrun
+import os, random
+from vlib import rc, rcheck, run as vrun, build, fsgen
 LEVEL = 'exploration'
 RULE = ('G1: rapidcheck generates a channel configuration (cached / cache=off / write-through, forced bounce, O_DIRECT, offset, undo-wrapped, block size, '
         'write_error handler) and 2-50 ops (read/write 1..12 blocks or negative byte counts, write_byte, zeroout, discard, readahead, set_blksize, flush, '
@@ -8,8 +8,13 @@ RULE = ('G1: rapidcheck generates a channel configuration (cached / cache=off / 
         'unknown-after-reported-error; non-trivial = a read of data last written by a different path than the one that cached it, or an injected fault fired; '
         'distinct by FNV hash of the serialised case')
 
+RULE2 = ('G2: a fixture set of small images with generated geometry (1-64 groups via -g, flex_bg sizes, uninit_bg / metadata_csum / bigalloc / meta_bg / ext2/3, '
+         'randomised bitmap contents) is loaded with n in {2,3,4,5,7,16,groups+1} threads under a generated schedule vector (every pread64 is delayed by '
+         'schedule[arrival index]) in a TSan build; oracle = bitmaps, tail flags and success equal the single-threaded load, and no TSan report; '
+         'non-trivial = at least 2 threads issued reads')
+
 def exes():
-    return {'c17_io': rc.compile_harness('c17_io')}
+    return {'c17_io': rc.compile_harness('c17_io'), 'c17_threads': rc.compile_harness('c17_threads', variant='tsan')}
 
 def run(ctx):
     ex = exes()
@@ -21,7 +26,28 @@ def run(ctx):
     rcheck.replay_tier(ctx, ex, env=env)
     n = int((1500 if ctx.tier == 'quick' else 60000) * ctx.scale)
     res = rc.run_harness(ex['c17_io'], ctx.seed, 16, n, 200, known_tags=rcheck.known_tags(ctx), env=env)
+    res.samples = res.samples[:3]
     ctx.res.merge(res)
+    # ---- G2: threads (TSan) ----
+    ctx.rule = RULE + ' || ' + RULE2
+    tools = vrun.Tools(build.ensure('plain'))
+    gd = os.path.join(d, 'g2'); os.makedirs(gd, exist_ok=True)
+    nimg = 12 if ctx.tier == 'quick' else 60
+    imgs = fsgen.geometry_images(tools, gd, nimg, random.Random(ctx.seed * 7919 + 17))
+    ctx.res.count('g2:images', len(imgs))
+    for im in imgs: ctx.res.count('g2:kind:' + im['kind'])
+    env2 = {'PBT_DIR': gd, 'PBT_NIMG': str(len(imgs))}
+    n2 = int((150 if ctx.tier == 'quick' else 4000) * ctx.scale)
+    res2 = rc.run_harness(ex['c17_threads'], ctx.seed + 1, 16, n2, 100, known_tags=rcheck.known_tags(ctx), env=env2)
+    ctx.res.merge(res2)
+    ctx.assumptions.append('G2 image fixtures are a deterministic function of VERIF_SEED (python random.Random), the schedule vector and thread count come from rapidcheck; '
+                           'TSan only sees executed accesses and the scheduler is perturbed, not owned')
 
 def replay_file(ctx, path):
     return rcheck.replay_file(ctx, exes(), path, env={'PBT_DIR': vrun.scratch()})
+
+MANIFEST = dict(
+    engine='rapidcheck',
+    technique='model-based property testing with fault injection (rapidcheck op sequences vs byte-array model; write-syscall interposition) + differential n-thread vs 1-thread bitmap loading under TSan with generated schedules',
+    level_text='Generated-sequence exploration of the unix (and undo-wrapped) io_channel against an exact byte model, including injected device write failures, plus schedule-perturbed differential testing of threaded bitmap loading in a ThreadSanitizer build. Evidence of coherence/durability/error reporting on the explored sequences; for threads, absence of observed races on executed paths only.',
+    level_note='Trusted: the byte-array model, the bad-region fault model (a failing byte range of the device for a window of operations), fsync stubbed and durability judged through a second descriptor; TSan (happens-before, executed paths only). The scheduler is perturbed through read delays, not owned.')
